@@ -581,3 +581,27 @@ def gen_rows(r, world, nrows, sharpen=False):
             x[v] = k
         rows.append(x)
     return rows
+
+
+def round_roots(world, rr):
+    """Tables as people type them: root distributions rounded down to 3 decimals (accepted by check_model, the column sums to
+    slightly less than one) with an impossible last state.  Marks world["flags"]["rounded_roots"]."""
+    import math
+
+    n = world["n"]
+    for v in range(n):
+        if not world["parents"][v] and world["card"][v] >= 2:
+            col = [row[0] for row in world["tables"][v]]
+            col[-1] = 0.0
+            tot = sum(col)
+            if tot <= 0:
+                continue
+            col = [math.floor(x / tot * 1000) / 1000.0 for x in col]
+            d = 1.0 - sum(col)
+            if d > 0.0009:
+                # the samplers accept a deficit of at most 1e-3
+                col[0] = round(col[0] + (d - 0.0009), 6)
+            if not (0.0 < 1.0 - sum(col) <= 0.00095):
+                continue
+            world["tables"][v] = [[x] for x in col]
+    world["flags"]["rounded_roots"] = True
